@@ -183,7 +183,7 @@ theorem joinInv_step {cfg : Config} {s s' : State} {t : Tid} {o : List String}
       rw [h5', hfresh] at h2; cases h2
   have hsub : ∀ w, w ∈ s.clientTids → w ∈ (stepFrame s t th fr).1.clientTids := by
     intro w hw
-    rcases h4.ct with h2 | ⟨_, h2⟩
+    rcases h4.ct with h2 | ⟨_, h2, _⟩
     · rw [h2]; exact hw
     · rw [h2]; exact List.mem_append_left _ hw
   -- the frame is a main frame: then `t = 0` and it is the whole stack
@@ -195,11 +195,13 @@ theorem joinInv_step {cfg : Config} {s s' : State} {t : Tid} {o : List String}
     | isFalse h0 =>
       have := hJ.mainOnly t th hth h0
       rw [hst, noBot_cons, hb] at this; cases this.1
-  have hctEq : bottomFr fr = false → (stepFrame s t th fr).1.clientTids = s.clientTids := by
+  have hctEq2 : (∀ i, fr ≠ .mSpawn i) → (stepFrame s t th fr).1.clientTids = s.clientTids := by
     intro hb
     rcases h4.ct with h2 | ⟨⟨i, hi⟩, _⟩
     · exact h2
-    · subst hi; cases hb
+    · exact absurd hi (hb i)
+  have hctEq : bottomFr fr = false → (stepFrame s t th fr).1.clientTids = s.clientTids := by
+    intro hb; apply hctEq2; intro i hi; subst hi; cases hb
   -- stacks of the other threads
   have hoth : ∀ u thu, u ≠ t → (stepFrame s t th fr).1.threads u = some thu →
       s.threads u = some thu ∨
@@ -258,7 +260,7 @@ theorem joinInv_step {cfg : Config} {s s' : State} {t : Tid} {o : List String}
       · rcases h4.others w hwt with h3 | ⟨_, thw', h3, _⟩
         · exact ⟨thw, by rw [h3]; exact h2⟩
         · exact ⟨thw', h3⟩
-    rcases h4.ct with h2 | ⟨_, h2⟩
+    rcases h4.ct with h2 | ⟨_, h2, h6⟩
     · rw [h2] at hw
       obtain ⟨thw, h3⟩ := hJ.exist w hw
       exact hkeep w thw h3
@@ -267,11 +269,10 @@ theorem joinInv_step {cfg : Config} {s s' : State} {t : Tid} {o : List String}
       · obtain ⟨thw, h3⟩ := hJ.exist w hw
         exact hkeep w thw h3
       · simp only [List.mem_singleton] at hw
-        have hwt : w ≠ t := by
-          intro e; rw [e] at hw; rw [← hw, hth] at hfresh; cases hfresh
-        rcases h4.others w hwt with h3 | ⟨_, thw', h3, _⟩
-        · sorry
-        · exact ⟨thw', h3⟩
+        rw [hw]
+        cases h7 : (stepFrame s t th fr).1.threads s.nthreads with
+        | none => rw [h7] at h6; cases h6
+        | some thw => exact ⟨thw, rfl⟩
   · -- phase
     intro u thu hthu f hf
     cases hb : bottomFr fr with
@@ -291,13 +292,14 @@ theorem joinInv_step {cfg : Config} {s s' : State} {t : Tid} {o : List String}
     | true =>
       obtain ⟨ht0, hr⟩ := hmain hb
       subst hr
-      by_cases hu : u = t
+      subst ht0
+      by_cases hu : u = 0
       · subst hu
-        exact phase_main hth hst hnf hb (hJ.phase u th hth fr (by rw [hst]; exact List.mem_cons_self ..)) hblk
+        exact phase_main hth hst hnf hb (hJ.phase 0 th hth fr (by rw [hst]; exact List.mem_cons_self ..)) hblk
           hJ.exist thu hthu f hf
       · apply phase_of_nonbot
         rcases hoth u thu hu hthu with h2 | h2 | ⟨h2, _⟩
-        · exact hJ.mainOnly u thu h2 (by omega) f hf
+        · exact hJ.mainOnly u thu h2 hu f hf
         · rw [h2] at hf; simp at hf; rcases hf with rfl | rfl <;> rfl
         · rw [h2] at hf; simp at hf; rcases hf with rfl | rfl <;> rfl
   · -- dead
@@ -311,11 +313,61 @@ theorem joinInv_step {cfg : Config} {s s' : State} {t : Tid} {o : List String}
       subst hfr
       obtain ⟨ht0, hr⟩ := hmain rfl
       subst hr
-      have hall : AllFin s := hJ.phase t th hth .dFin (by rw [hst]; exact List.mem_cons_self ..)
+      subst ht0
+      have hall : AllFin s := hJ.phase 0 th hth .dFin (by rw [hst]; exact List.mem_cons_self ..)
       refine ⟨?_, ?_, dFin_pool⟩
-      · intro w hw; rw [hctEq' ] at hw; exact hfin w (hall w hw)
-      · sorry
+      · intro w hw; rw [hctEq2 (by intro i hi; cases hi)] at hw; exact hfin w (hall w hw)
+      · intro u thu hthu
+        by_cases hu : u = 0
+        · subst hu
+          have : (stepFrame s 0 th .dFin).1.threads 0 = some (th.cont [.tExit]) := by
+            simp [stepFrame, setThread, upd_same]
+          rw [this] at hthu; injection hthu with hthu; subst hthu
+          simp [Thread.cont, hst, noBot_cons, noBot_nil, bottomFr]
+        · rcases hoth u thu hu hthu with h2 | h2 | ⟨h2, _⟩
+          · exact hJ.mainOnly u thu h2 hu
+          · rw [h2]; simp [noBot_cons, bottomFr, noBot_nil]
+          · rw [h2]; simp [noBot_cons, bottomFr, noBot_nil]
     · obtain ⟨hall, hnb, hpn⟩ := hJ.dead hl
-      sorry
+      have hnbt : NoBot (fr :: rest) := by rw [← hst]; exact hnb t th hth
+      have hb : bottomFr fr = false := (noBot_cons.mp hnbt).1
+      refine ⟨?_, ?_, ?_⟩
+      · intro w hw; rw [hctEq hb] at hw; exact hfin w (hall w hw)
+      · intro u thu hthu
+        by_cases hu : u = t
+        · subst hu
+          obtain ⟨th', h2, h3⟩ := h4.nobot hnbt
+          rw [h2] at hthu; injection hthu with hthu; subst hthu; exact h3
+        · rcases hoth u thu hu hthu with h2 | h2 | ⟨h2, _⟩
+          · exact hnb u thu h2
+          · rw [h2]; simp [noBot_cons, bottomFr, noBot_nil]
+          · rw [h2]; simp [noBot_cons, bottomFr, noBot_nil]
+      · apply h4.poolNone
+        · intro e; subst e; cases hb
+        · intro c e; subst e
+          rcases hJ.kinds t th hth with h2 | h2
+          · obtain ⟨thw, h3, h5⟩ := hall t h2
+            rw [hth] at h3; injection h3 with h3; subst h3; rw [hnf] at h5; cases h5
+          · rw [hst, allNC_cons] at h2; cases h2.1
+        · exact hpn
+
+theorem reach_join {cfg : Config} {s : State} (h : Reach cfg s) : JoinInv s := by
+  induction h with
+  | init => exact joinInv_init cfg
+  | step t hr hs ih => exact joinInv_step (reach_inv hr) ih hs
+
+/-- a pool exists only while it has not been deleted: after `dFin` no pool is created again -/
+theorem pool_alive {cfg : Config} {s : State} {p : Pool} (h : Reach cfg s) (hp : s.pool = some p) :
+    poolAlive s := by
+  cases Classical.em (poolAlive s) with
+  | inl hl => exact hl
+  | inr hl =>
+    have := ((reach_join h).dead hl).2.2
+    rw [hp] at this; cases this
+
+/-- the main thread has joined all clients when it deletes the pool (and ever after) -/
+theorem clients_finished_of_dead {cfg : Config} {s : State} (h : Reach cfg s) (hl : ¬ poolAlive s) :
+    ∀ w ∈ s.clientTids, ∃ th, s.threads w = some th ∧ th.finished = true :=
+  ((reach_join h).dead hl).1
 
 end Nstd.Future
